@@ -799,10 +799,31 @@ func (s *Scope) evalCall(x *ast.CallExpr) SV {
 		if skolem {
 			return SV{k: kBool, t: body}
 		}
-		if univ {
-			return SV{k: kBool, t: tb.Forall([]*Term{kv}, body)}
+		// The quantifier stays for the solver; in addition it is instantiated
+		// here at the small constants and at the range ends, which is what
+		// byte-level code (varints, fixed layouts) needs and what solvers
+		// without good triggers for bit-vector index terms miss.
+		var insts []*Term
+		instAt := func(kt *Term) {
+			c2 := s.child()
+			c2.goal = s.goal
+			c2.vars[kid.Name] = SV{k: kInt, t: kt, signed: true}
+			p2 := c2.eval(args[3])
+			r2 := tb.And(tb.Sle(lot, kt), tb.Slt(kt, hit))
+			if univ {
+				insts = append(insts, tb.Implies(r2, p2.t))
+			} else {
+				insts = append(insts, tb.And(r2, p2.t))
+			}
 		}
-		return SV{k: kBool, t: tb.Exists([]*Term{kv}, body)}
+		for c := 0; c <= 10; c++ {
+			instAt(tb.ConstU(uint64(c), 64))
+		}
+		instAt(tb.Sub(hit, tb.ConstU(1, 64)))
+		if univ {
+			return SV{k: kBool, t: tb.And(append([]*Term{tb.Forall([]*Term{kv}, body)}, insts...)...)}
+		}
+		return SV{k: kBool, t: tb.Or(append([]*Term{tb.Exists([]*Term{kv}, body)}, insts...)...)}
 	case "bitlen":
 		need(1)
 		v := s.eval(args[0])
@@ -1173,6 +1194,26 @@ func (f *Frame) scopeAt(st *execState, over map[ssa.Value]Val) *Scope {
 	e := f.e
 	sc := &Scope{e: e, vars: map[string]SV{}, mem: st.mem, oldMem: f.entryMem, pkg: f.fn.Pkg.Pkg}
 	sc.golookup = func(name string) (SV, bool) {
+		// a loop-carried / merged value (phi) of that name shadows the parameter
+		for _, c := range f.names[name] {
+			if _, isPhi := c.(*ssa.Phi); !isPhi {
+				continue
+			}
+			if v, ok := over[c]; ok {
+				return e.svOf(v, c.Type()), true
+			}
+		}
+		var lastPhi ssa.Value
+		for _, c := range f.names[name] {
+			if _, isPhi := c.(*ssa.Phi); isPhi {
+				if _, ok := st.env[c]; ok {
+					lastPhi = c
+				}
+			}
+		}
+		if lastPhi != nil {
+			return e.svOf(st.env[lastPhi], lastPhi.Type()), true
+		}
 		for i, p := range f.fn.Params {
 			if p.Name() == name {
 				return e.svOf(f.params[i], p.Type()), true
